@@ -20,12 +20,18 @@ def run_impl(jobs):
         return pool.map(_impl, jobs, chunksize=max(1, len(jobs) // (NPROC * 8)))
 
 
+# model outcomes that mean: this input lies outside a documented window of the model (not a disagreement).
+# 310: a float literal with more than 15 significant digits (its repr needs correctly rounded binary conversion)
+OUTSIDE_MODEL = {'raise MODEL-STUCK-310'}
+
+
 def compare(jobs, stream, tags=None, impl_outs=None):
     """jobs: list of (rdefs, ops). returns dict(cases, disagreements, outcomes, ops, impl_outs)"""
     lines = [pyscript.script_sx(rd, ops) for rd, ops in jobs]
     mouts = run_model(lines)
     iouts = impl_outs if impl_outs is not None else run_impl(jobs)
     dis = []
+    outside = {}
     outcomes = {}
     nops = 0
     distinct = set()
@@ -38,6 +44,10 @@ def compare(jobs, stream, tags=None, impl_outs=None):
         distinct.add(hash(io))
         if mo != io:
             first = next((i for i, (a, b) in enumerate(zip(ml, il)) if a != b), min(len(ml), len(il)))
+            if first < len(ml) and ml[first] in OUTSIDE_MODEL:
+                # a documented window of the model (DESIGN 3.1): the case is not compared, and is counted
+                outside[ml[first]] = outside.get(ml[first], 0) + 1
+                continue
             d = {'stream': stream, 'script_index': idx, 'first_differing_op': first,
                  'op': repr(ops[first]) if first < len(ops) else None,
                  'model': (ml[first] if first < len(ml) else None),
@@ -50,7 +60,7 @@ def compare(jobs, stream, tags=None, impl_outs=None):
                 d['model'] = str(d['model'])[:1500]
                 d['impl'] = str(d['impl'])[:1500]
             dis.append(d)
-    return {'cases': len(jobs), 'ops': nops, 'disagreements': dis, 'outcomes': outcomes,
+    return {'cases': len(jobs), 'ops': nops, 'disagreements': dis, 'outcomes': outcomes, 'outside_model_window': outside,
             'distinct_nontrivial': len(distinct), 'impl_outs': iouts, 'model_outs': mouts}
 
 
